@@ -8,6 +8,7 @@ from vlib.dfa_enc import run_dfa
 
 BV = 12
 FOREIGN_KEY = "zzForeignAttribute"
+FOREIGN_QKEY = "p:zzForeign"          # a foreign attribute that looks namespace-qualified (prefix p is bound on the node)
 
 CHILD_CODES = {"CHILD_NOT_ALLOWED", "MIN_OCCURRENCE_UNMET", "MAX_OCCURRENCE_EXCEEDED", "MIN_CHOICE_UNMET", "MAX_CHOICE_EXCEEDED"}
 ATTR_CODES = {"ATTRIBUTE_REQUIRED", "ATTRIBUTE_UNRECOGNIZED", "ATTRIBUTE_EXPECTED_ENUM"}
@@ -98,7 +99,8 @@ def run(setup, max_paths=3000, budget_s=120):
             for k, v in (emlctx.valid_attributes(rn) if rn else {}).items():
                 n._attributes[k] = v
         else:
-            keys = list(attrs_spec.keys()) + [FOREIGN_KEY]
+            keys = list(attrs_spec.keys()) + [FOREIGN_KEY, FOREIGN_QKEY]
+            n._nsmap = {"p": "urn:p", "xsi": "http://www.w3.org/2001/XMLSchema-instance"}
             present = [z3.Bool("has_%d" % i) for i in range(len(keys))]
             values = [it.name("val_%d" % i) for i in range(len(keys))]
             n._attributes = SymDict(keys, present, values)
@@ -230,6 +232,8 @@ def attr_violations(it, rule_name, P, V):
         if len(sp) > 1:
             viol.append(z3.And(P[k], z3.Not(z3.Or([V[k].z == it.intern.code(v) for v in sp[1:]]))))
     viol.append(P[FOREIGN_KEY])
+    if FOREIGN_QKEY in P:
+        viol.append(P[FOREIGN_QKEY])
     return viol
 
 
